@@ -221,8 +221,9 @@ PROPS = {
             'BIP173 polymod formula',
             'str.lower/str.upper are uninterpreted (length-preserving, lower idempotent); str.rfind is z3 last_indexof; '
             'CHARSET.find(c) for one character is a decision table over the character code',
-            'convertbits is used through two ASSUMED contracts (5->8 strict, 8->5 padded) that are only checked by '
-            'bounded units against a bit-string reference',
+            'convertbits 8->5 (padded) is used through an ASSUMED contract that is only checked by a bounded unit '
+            'against a bit-string reference (the 5->8 strict direction is proved against an integer-stream specification '
+            'which a bounded unit compares with the same bit-string reference)',
             'the guarantee "up to four substitutions are always detected" is a property of the BIP173 generator '
             'polynomial (mathematics, BIP173), not of this code: it is sampled by a bounded unit, not proved',
         ],
@@ -233,9 +234,9 @@ PROPS = {
                       'and polymod 1, returns lower-cased prefix and data values, never raises; segwit decode accepts '
                       'exactly: valid Bech32, expected prefix, 5-bit groups regrouping strictly to 2..40 bytes, version '
                       '0..16, version-0 length 20 or 32, and returns version and program; encode returns only strings '
-                      'its decoder accepts; CBech32Data(s) raises Bech32Error exactly for non-addresses of the selected '
+                      'its decoder accepts; convertbits 5->8 strict (all lengths): None exactly for a value outside 0..31, five or more left-over bits or a set left-over bit, else the bytes of the bit stream; CBech32Data(s) raises Bech32Error exactly for non-addresses of the selected '
                       "chain's prefix (4 chains) and str() only yields valid addresses. "
-                      'BOUNDED (not proved): convertbits against a bit-string regrouping reference; polymod against GF(32) '
+                      'BOUNDED (not proved): convertbits 8->5 padded, and both directions against a bit-string regrouping reference; polymod against GF(32) '
                       'polynomial arithmetic; decode/encode against an independent BIP173 codec on valid addresses, every '
                       'single substitution of sampled addresses (enumerated exhaustively, continuing across runs), random '
                       '2-4 substitutions, mixed case, truncation, extension; refusal of every sampled 1-4 character '
